@@ -129,6 +129,8 @@ void deterministic_rand(uint64_t seed) {
 
 // ---- key exchange
 struct KeyPair { uint16_t group = 0; Bytes priv, pub; };
+static int ec_nid(uint16_t group) { return group == GROUP_SECP256R1 ? NID_X9_62_prime256v1 : group == GROUP_SECP384R1 ? NID_secp384r1 : group == GROUP_SECP521R1 ? NID_secp521r1 : 0; }
+static size_t ec_len(uint16_t group) { return group == GROUP_SECP384R1 ? 48 : group == GROUP_SECP521R1 ? 66 : 32; }
 static KeyPair kx_generate(uint16_t group, const Bytes &seed32) {
     KeyPair k; k.group = group;
     if (group == GROUP_X25519) {
@@ -136,13 +138,15 @@ static KeyPair kx_generate(uint16_t group, const Bytes &seed32) {
         EVP_PKEY *p = EVP_PKEY_new_raw_private_key(EVP_PKEY_X25519, nullptr, k.priv.data(), 32);
         k.pub.assign(32, 0); size_t l = 32;
         if (p) { EVP_PKEY_get_raw_public_key(p, k.pub.data(), &l); EVP_PKEY_free(p); }
-    } else if (group == GROUP_SECP256R1) {
-        k.priv = seed32; k.priv[0] &= 0x7f; k.priv[31] |= 1;
-        EC_GROUP *g = EC_GROUP_new_by_curve_name(NID_X9_62_prime256v1);
-        BIGNUM *d = BN_bin2bn(k.priv.data(), 32, nullptr);
+    } else if (ec_nid(group)) {
+        size_t n = ec_len(group);
+        k.priv = seed32; while (k.priv.size() < n) { Bytes more = sha256(k.priv); putb(k.priv, more); } k.priv.resize(n);
+        k.priv[0] = (uint8_t) (group == GROUP_SECP521R1 ? 0 : k.priv[0] & 0x7f); k.priv[n - 1] |= 1;
+        EC_GROUP *g = EC_GROUP_new_by_curve_name(ec_nid(group));
+        BIGNUM *d = BN_bin2bn(k.priv.data(), (int) n, nullptr);
         EC_POINT *q = EC_POINT_new(g);
-        k.pub.assign(65, 0);
-        if (g && d && q && EC_POINT_mul(g, q, d, nullptr, nullptr, nullptr) == 1) EC_POINT_point2oct(g, q, POINT_CONVERSION_UNCOMPRESSED, k.pub.data(), 65, nullptr);
+        k.pub.assign(1 + 2 * n, 0);
+        if (g && d && q && EC_POINT_mul(g, q, d, nullptr, nullptr, nullptr) == 1) EC_POINT_point2oct(g, q, POINT_CONVERSION_UNCOMPRESSED, k.pub.data(), k.pub.size(), nullptr);
         EC_POINT_free(q); BN_free(d); EC_GROUP_free(g);
     }
     return k;
@@ -157,14 +161,15 @@ static Bytes kx_derive(const KeyPair &k, const Bytes &peer) {
         EVP_PKEY_CTX *c = me ? EVP_PKEY_CTX_new(me, nullptr) : nullptr; size_t l = 32; out.assign(32, 0);
         if (!(c && pe && EVP_PKEY_derive_init(c) == 1 && EVP_PKEY_derive_set_peer(c, pe) == 1 && EVP_PKEY_derive(c, out.data(), &l) == 1)) out.clear();
         EVP_PKEY_CTX_free(c); EVP_PKEY_free(me); EVP_PKEY_free(pe);
-    } else if (k.group == GROUP_SECP256R1) {
-        if (peer.size() != 65) return out;
-        EC_GROUP *g = EC_GROUP_new_by_curve_name(NID_X9_62_prime256v1);
+    } else if (ec_nid(k.group)) {
+        size_t n = ec_len(k.group);
+        if (peer.size() != 1 + 2 * n) return out;
+        EC_GROUP *g = EC_GROUP_new_by_curve_name(ec_nid(k.group));
         EC_POINT *q = EC_POINT_new(g), *r = EC_POINT_new(g);
-        BIGNUM *d = BN_bin2bn(k.priv.data(), 32, nullptr), *x = BN_new();
+        BIGNUM *d = BN_bin2bn(k.priv.data(), (int) n, nullptr), *x = BN_new();
         if (g && q && r && d && x && EC_POINT_oct2point(g, q, peer.data(), peer.size(), nullptr) == 1 && EC_POINT_is_on_curve(g, q, nullptr) == 1 &&
             EC_POINT_mul(g, r, nullptr, q, d, nullptr) == 1 && EC_POINT_get_affine_coordinates(g, r, x, nullptr, nullptr) == 1) {
-            out.assign(32, 0); BN_bn2binpad(x, out.data(), 32);
+            out.assign(n, 0); BN_bn2binpad(x, out.data(), (int) n);
         }
         BN_free(x); BN_free(d); EC_POINT_free(q); EC_POINT_free(r); EC_GROUP_free(g);
     }
@@ -243,7 +248,7 @@ struct Puppet::Impl {
     Seen seen;
     Drbg rng;
     Bytes my_random, my_session_id;
-    KeyPair kx_x25519, kx_p256;
+    KeyPair kx_x25519, kx_p256, kx_p384, kx_p521;
     Bytes transcript;
     Bytes first_client_hello_hash; bool hrr_done = false; uint16_t hrr_group = 0; Bytes hrr_cookie;
     // secrets
@@ -262,10 +267,12 @@ struct Puppet::Impl {
         my_session_id = rng.take(32);
         kx_x25519 = kx_generate(GROUP_X25519, rng.take(32));
         kx_p256 = kx_generate(GROUP_SECP256R1, rng.take(32));
+        kx_p384 = kx_generate(GROUP_SECP384R1, Drbg(c.seed, "p13-p384").take(32));   // (separate streams: the values above stay what they were)
+        kx_p521 = kx_generate(GROUP_SECP521R1, Drbg(c.seed, "p13-p521").take(32));
         if (cfg.groups.empty()) { cfg.groups.push_back(cfg.group); cfg.groups.push_back(cfg.group == GROUP_X25519 ? GROUP_SECP256R1 : GROUP_X25519); }
     }
     void trace(const char *dir, const std::string &s) const { if (cfg.trace) fprintf(stderr, "  [p13 %s %s] %s\n", cfg.server ? "srv" : "cli", dir, s.c_str()); }
-    const KeyPair &kx(uint16_t g) const { return g == GROUP_SECP256R1 ? kx_p256 : kx_x25519; }
+    const KeyPair &kx(uint16_t g) const { return g == GROUP_SECP256R1 ? kx_p256 : g == GROUP_SECP384R1 ? kx_p384 : g == GROUP_SECP521R1 ? kx_p521 : kx_x25519; }
     static void set_keys(TrafficKeys &k, const Bytes &secret) { k.key = hkdf_expand_label(secret, "key", Bytes(), 16); k.iv = hkdf_expand_label(secret, "iv", Bytes(), 12); k.seq = 0; k.ready = true; }
 
     void derive_hs() {
@@ -344,16 +351,16 @@ struct Puppet::Impl {
     uint16_t server_group() const {
         // the preferred group if the client offered a share for it, else any share we can use, else the preferred group
         for (auto &ks : seen.key_shares) if (ks.first == cfg.group) return cfg.group;
-        for (auto &ks : seen.key_shares) if (ks.first == GROUP_X25519 || ks.first == GROUP_SECP256R1) return ks.first;
+        for (auto &ks : seen.key_shares) if (ks.first == GROUP_X25519 || ec_nid(ks.first)) return ks.first;
         return cfg.group;
     }
-    Bytes server_hello_body(bool hrr, uint16_t group) const {
+    Bytes server_hello_body(bool hrr, uint16_t group, uint16_t suite = 0x1301) const {
         static const uint8_t hrr_random[32] = { 0xCF, 0x21, 0xAD, 0x74, 0xE5, 0x9A, 0x61, 0x11, 0xBE, 0x1D, 0x8C, 0x02, 0x1E, 0x65, 0xB8, 0x91,
                                                 0xC2, 0xA2, 0x11, 0x16, 0x7A, 0xBB, 0x8C, 0x5E, 0x07, 0x9E, 0x09, 0xE2, 0xC8, 0xA8, 0x33, 0x9C };
         Bytes b; put16(b, 0x0303);
         if (hrr) b.insert(b.end(), hrr_random, hrr_random + 32); else putb(b, my_random);
         putv8(b, seen.session_id);
-        put16(b, 0x1301); put8(b, 0);
+        put16(b, suite ? suite : 0x1301); put8(b, 0);
         Bytes ext;
         { Bytes v; put16(v, 0x0304); put_ext(ext, 43, v); }
         { Bytes e; put16(e, group); if (!hrr) putv16(e, kx(group).pub); put_ext(ext, 51, e); }
@@ -595,8 +602,8 @@ Bytes Puppet::emit(const Step &s) {
         Bytes th = s.transcript_hash.empty() ? sha256(I.transcript) : s.transcript_hash;
         switch (s.msg) {
         case M_CLIENT_HELLO: data = I.client_hello(); break;
-        case M_SERVER_HELLO: data = make_server_hello(); break;
-        case M_HELLO_RETRY_REQUEST: data = make_hello_retry_request(I.cfg.group); break;
+        case M_SERVER_HELLO: data = hs_msg(HS_SERVER_HELLO, I.server_hello_body(false, s.group ? s.group : I.server_group(), s.cipher_suite)); break;
+        case M_HELLO_RETRY_REQUEST: data = hs_msg(HS_SERVER_HELLO, I.server_hello_body(true, s.group ? s.group : I.cfg.group, s.cipher_suite)); break;
         case M_ENCRYPTED_EXTENSIONS: data = make_encrypted_extensions(); break;
         case M_CERTIFICATE_REQUEST: data = make_certificate_request(); break;
         case M_CERTIFICATE: data = make_certificate(id, srv ? Bytes() : I.seen.cert_request_context, s.empty_certificate); break;
@@ -621,6 +628,7 @@ Bytes Puppet::emit(const Step &s) {
             else if (s.msg == M_NEW_SESSION_TICKET || s.msg == M_KEY_UPDATE) epoch = EP_APP;
             else epoch = I.wr_epoch;
         }
+        if ((s.use_body_override || !s.body_override.empty()) && !data.empty()) data = hs_msg(data[0], s.body_override);
         if (s.type_override >= 0) data[0] = (uint8_t) s.type_override;
         if (s.flip_bit >= 0) {
             size_t skip = s.flip_body_only && data.size() > 4 ? 4 : 0;
@@ -630,7 +638,7 @@ Bytes Puppet::emit(const Step &s) {
         uint8_t wire_type = data[0];
         // ServerHello as server: fix the ECDHE secret before the transcript moves on
         if (srv && s.msg == M_SERVER_HELLO && !I.sent_sh) {
-            uint16_t g = I.server_group();
+            uint16_t g = s.group ? s.group : I.server_group();
             for (auto &ks : I.seen.key_shares) if (ks.first == g) { I.ecdhe = kx_derive(I.kx(g), ks.second); break; }
         }
         bool post_handshake = wire_type == HS_NEW_SESSION_TICKET || wire_type == HS_KEY_UPDATE;
